@@ -145,6 +145,14 @@ fn gen_cfg(rng: &mut Rng, expose: bool) -> Cfg {
     { let (_, f) = rng.pick(&rows); user.push_str(&format!("uz,0,0,0,{}\n", f)); }
     // ... and one with the SURFACE and the features of a seed word (must get that word's cost as well)
     { let (sf, f) = rng.pick(&rows); if sf.chars().count() < 100 { user.push_str(&format!("{},0,0,0,{}\n", quote(sf), f)); } }
+    // 0,0,0 user words whose columns are taken from different seed rows: such a combination can outweigh every seed
+    // word, so that the largest absolute weight of the model belongs to a user label
+    for j in 0..2 + rng.below(3) {
+        let cols: Vec<Vec<String>> = rows.iter().map(|(_, f)| csv_cells(f)).collect();
+        let n = 2 + rng.below(3) as usize;
+        let mixed: Vec<String> = (0..n).map(|c| { let r = rng.pick(&cols); quote(r.get(c).map_or("*", |x| x.as_str())) }).collect();
+        user.push_str(&format!("um{},0,0,0,{}\n", j, mixed.join(",")));
+    }
     for i in 0..1 + rng.below(6) {
         let s = format!("u{}{}", ["x", "y", "猫猫"][i as usize % 3], i);
         match rng.below(6) {
